@@ -313,7 +313,10 @@ def gen_select(j, rng, with_faults=False):
         faults = []
         for _ in range(rng.randint(1, 9)):
             faults.append(rng.choice([None, None, "timeout", "timeout", "timeout", ["http", rng.choice([400, 401, 404, 429, 500, 502, 503])],
-                                      ["api", rng.choice([3101, 3004, 3144, 9999])]]))
+                                      ["api", rng.choice([3101, 3004, 3144, 9999])],
+                                      ["exc", rng.choice(["RemoteProtocolError", "ReadError", "ConnectError", "WriteError",
+                                                          "LocalProtocolError", "ProxyError", "DecodingError",
+                                                          "TooManyRedirects", "UnsupportedProtocol", "CloseError"])]]))
         p["faults"] = faults
         p["mode"] = "faults"
     return p
